@@ -89,3 +89,104 @@ H(P, "c12", "c12_repeat_borrowed", ALL4, "u,v: all f32; sub-rectangle {1,2,4}x{1
 H(P, "c12", "c12_clamp_abs", FP3, "u,v: all f32; dims symbolic in [1,5]^2", "no panic; texel == floor(clamp(u,0,w-1)); relative == absolute scaled", unwind=27, est=60)
 H(P, "c12", "c12_once_agrees", ALL4, "dims {1,2,4}^2, 0<=u<w, 0<=v<h (all floats in range)", "SamplerOnce == repeat == clamp == floor", unwind=18, est=30)
 H(P, "c12", "c12_once_rel", ALL4, "4x2, all (u,v) whose scaled value is in range", "sample == sample_abs scaled", unwind=18, est=30)
+
+# ---------------------------------------------------------------- C11
+P = "C11"
+BOUNDS[P] = "root dims <= 3x3 (quick) / 4x4 (thorough, -F deep), arbitrary u8 contents, every sub-rectangle and every sub-rectangle of it (two nesting levels), all five range forms; raw views: dims <= 4x4 (rows/fill: 3x3), stride <= 6 (4), backing length <= 12 incl. surplus"
+OUTSIDE[P] = ["dims > 4x4, > 2 nesting levels", "w*h or y*stride near u32::MAX (index arithmetic overflow)", "element types other than u8 / (u32,u32)", "operation *sequences* longer than one: argued, not solved — views hold no mutable metadata, so one arbitrary operation from an arbitrary reachable view on arbitrary contents is the inductive step"]
+LEVEL_TEXT[P] = ("Bounded model checking of every public Buf2/Slice2/MutSlice2 operation against a plain 2-D array model, for all buffer dimensions up to the bound, all (nested) sub-rectangles, all contents, "
+                 "one operation at a time (inductive step); must-panic obligations use should_panic plus an unreachable cover after the call.")
+_b = dict(est=60)
+for n, dom, orc in [
+    ("c11_slice_forms", "root <= DxD, rect in any of 5x5 range forms with bounds <= 5, accepted rects", "geometry == model; reads == model; outside => None"),
+    ("c11_read_nested", "root <= DxD, two nested sub-rectangles, symbolic point", "get/[[x,y]]/[pt]/[y][x] == model; OOB => None; is_contiguous formula"),
+    ("c11_rows_nested", "raw root <= 3x3, sub-rectangle (quick) / two nested (thorough)", "rows(): height() rows of width() == model (w>0)"),
+    ("c11_iter_small", "raw root <= 3x2, every sub-rectangle", "iter(): w*h items row-major == model"),
+    ("c11_buf_ctor", "dims <= DxD", "new_from/new/new_with contents, dims, stride, rows()"),
+    ("c11_raw_reads", "Slice2::new dims<=4x4, stride<=6, len<=12, every view that fits (surplus allowed)", "reads == model; outside => None"),
+    ("c11_raw_new_accepts", "same, w,h>=1 and fits", "accepted"),
+    ("c11_raw_rows", "Slice2::new dims<=3x3, stride<=4, len<=12, surplus allowed", "rows(): height() rows == model"),
+    ("c11_raw_fill", "MutSlice2::new dims<=3x3, stride<=4, len<=12, fill / fill_with", "exactly the addressed cells change"),
+    ("c11_write_point", "nested slice_mut, [[x,y]] = v", "root == model"),
+    ("c11_write_row_index", "nested slice_mut, [y][x] = v", "root == model"),
+    ("c11_write_get_mut", "nested slice_mut, get_mut any point", "Some iff in bounds; root == model"),
+    ("c11_write_fill", "nested slice_mut, fill", "root == model"),
+    ("c11_write_fill_with", "nested slice_mut, fill_with(x,y)", "root == model, f sees view coordinates"),
+    ("c11_write_rows_mut", "nested slice_mut, rows_mut", "height() rows of width(); root == model"),
+    ("c11_write_copy_from", "nested slice_mut <- strided source view", "root == model"),
+]:
+    H(P, "c11", n, ("bare",), dom, orc, **_b)
+for n, dom, orc in [
+    ("c11_iter_nested", "raw root <= 3x3, two nested sub-rectangles", "iter(): w*h items row-major == model"),
+    ("c11_write_iter_mut", "raw root <= 3x3, nested slice_mut, iter_mut", "w*h items row-major; root == model"),
+]:
+    H(P, "c11", n, ("bare",), dom, orc, tiers=("thorough",), est=900)
+for n, dom in [
+    ("c11_slice_forms_reject", "rect (any form) not inside the view"),
+    ("c11_new_from_short", "iterator shorter than w*h"),
+    ("c11_raw_new_reject", "dims the data cannot hold"),
+    ("c11_oob_point_panics", "[[x,y]] outside a sub-view"),
+    ("c11_oob_row_panics", "[y] with any usize y >= height (incl. y >= 2^32)"),
+    ("c11_oob_write_panics", "IndexMut outside a mutable sub-view"),
+    ("c11_copy_from_mismatch_panics", "copy_from with different dims"),
+]:
+    H(P, "c11", n, ("bare",), dom, "every such call panics (should_panic + unreachable cover after the call)", kind="should_panic", est=40)
+
+# ---------------------------------------------------------------- C19 (Kani part; the period is decided by z3, see EXTERNAL)
+P = "C19"
+BOUNDS[P] = "step: all pairs of 64-bit states; distributions: every 64-bit state x every finite f32 range a<b of finite width / every i32 range of positive representable width / every f32 p; rejection samplers: acceptance within 2 iterations"
+OUTSIDE[P] = ["rejection samplers needing more than 2 iterations (probability < 5%: (1-pi/4)^2 disk, 23% ball)", "len_sqr <= 1 of the returned disk/ball sample in the quick tier (re-evaluating the acceptance test is a float multiplier equivalence; capped attempt in the thorough tier)", "UnitCircle/UnitSphere length (normalize: sqrt/powf, tolerance over two/three free floats)", "statistical uniformity / independence", "Uniform<f32> with non-finite bounds or width"]
+LEVEL_TEXT[P] = ("Bounded model checking over the complete 64-bit state space: the step is shown zero-free, injective and GF(2)-linear for all states, every distribution's range claim is decided for every state "
+                 "and every range at once; the full period 2^64-1 is a solver-checked witness chain (z3, cvc5 cross-check) over the matrix of the step extracted from the real code.")
+H(P, "c19", "c19_step_bijective", ("bare",), "all pairs of distinct 64-bit states", "images differ; non-zero maps to non-zero", est=3)
+H(P, "c19", "c19_step_linear", ("bare",), "all pairs of 64-bit states", "next(a^b) == next(a)^next(b), next(0)==0", est=3)
+H(P, "c19", "c19_seed_determinism", ("bare",), "every non-zero seed", "from_seed keeps the seed; two generators agree for 3 steps; outputs non-zero", est=3)
+H(P, "c19", "c19_seed_zero_panics", ("bare",), "seed 0", "panics", kind="should_panic", est=2)
+H(P, "c19", "c19_uniform_f32_unit", ("bare",), "every state, range 0..1", "start <= v < end", est=3)
+H(P, "c19", "c19_uniform_f32_symmetric", ("bare",), "every state, range -1..1", "start <= v < end", est=3)
+H(P, "c19", "c19_uniform_f32_any_range", ("bare", "std"), "every state x every finite a<b with finite b-a", "a <= v < b", est=10)
+H(P, "c19", "c19_uniform_i32", ("bare",), "every state x every a<b with b-a representable", "a <= v < b", est=30)
+H(P, "c19", "c19_bernoulli_extremes", ("bare",), "every state x every f32 p (NaN incl.)", "p<=0 => false, p>=1 => true", est=5)
+H(P, "c19", "c19_composites_in_order", ("bare",), "every state; ranges 0..7, -3..5", "array / tuple / Vec2i sample == scalar draws from successive states, same final state", unwind=5, est=30)
+H(P, "c19", "c19_composites_f32", ("bare",), "every state; ranges -1..1, 2..5", "Vec2 / Point2 sample == scalar draws in order", unwind=5, est=30)
+H(P, "c19", "c19_disk_cut", ("bare",), "every state whose rejection loop accepts within 2 iterations", "sample components in [-1,1), generator advanced", unwind=3, est=60,
+  kani_args=["--no-unwinding-checks"], assumes=["the unwinding assertion of the rejection loop is turned into an assumption (acceptance within 2 iterations)"])
+H(P, "c19", "c19_ball_cut", ("bare",), "every state whose rejection loop accepts within 2 iterations", "sample components in [-1,1), generator advanced", unwind=3, est=60,
+  kani_args=["--no-unwinding-checks"], assumes=["the unwinding assertion of the rejection loop is turned into an assumption (acceptance within 2 iterations)"])
+H(P, "c19", "c19_disk_within_2", ("bare",), "every state for which one of the first two candidate points is accepted", "len_sqr <= 1, components in [-1,1); PointsOnUnitDisk equal", unwind=4, est=1200, tiers=("thorough",),
+  assumes=["acceptance within two iterations (assumed on the same arithmetic); longer rejection runs are outside the bound"])
+H(P, "c19", "c19_ball_within_2", ("bare",), "every state for which one of the first two candidate points is accepted", "len_sqr <= 1; PointsInUnitBall equal", unwind=5, est=1200, tiers=("thorough",),
+  assumes=["acceptance within two iterations"])
+
+
+def _c19_external(tier, scratch, say):
+    import importlib.util, os
+    spec = importlib.util.spec_from_file_location("c19_period", os.path.join(os.path.dirname(os.path.abspath(__file__)), "smt", "c19_period.py"))
+    m = importlib.util.module_from_spec(spec)
+    spec.loader.exec_module(m)
+    r = m.obligations(tier, scratch, say)
+    for x in r:
+        say(f"  [{x['verdict']:12s}] {x['name']:48s} {x.get('wall_s', 0):7.1f}s  queries={x.get('queries', 0)} {x.get('why', '')}")
+    return r
+
+
+EXTERNAL["C19"] = _c19_external
+TECHNIQUE["C19"] = "bounded model checking (Kani/CBMC) over all 64-bit states for the step and every distribution; full period by an SMT-checked GF(2) witness chain (z3, cvc5 cross-check) over the step matrix extracted from the real code"
+EXTRA_ENGINES.append({"name": "smt-chain", "path": "smt/c19_period.py", "serves_properties": ["C19"],
+                      "kind_free_text": "z3 4.8.12 (cvc5 1.0 cross-check in the thorough tier) over QF_BV: ~2800 linear-identity queries proving order(M) = 2^64-1 for the xorshift step matrix M extracted natively from /repo"})
+
+# ---------------------------------------------------------------- C16 (integer kernels; float HSL via smt/)
+P = "C16"
+BOUNDS[P] = "8-bit kernels: all 2^24 RGB / HSL triples; packing: all 2^32 words; float->u8: every f32 incl. NaN/inf; u8 Affine::add: every channel x every i32 delta <= i32::MAX-255"
+OUTSIDE[P] = ["to_linear / to_srgb (powf)", "float RGB<->HSL round trip, range and hue-1==hue-0 (float %: CBMC's model is unusable; see smt engine)", "to_hsla/to_rgba agreement with the 3-channel conversions off the 6-step channel lattice"]
+LEVEL_TEXT[P] = ("Bounded model checking of the integer colour kernels over their complete input spaces (2^24 triples, 2^32 words, all floats for clamping); "
+                 "each is decided by the SAT solver, not enumerated.")
+H(P, "c16", "c16_hsl8_to_rgb_total", ("bare",), "all 2^24 8-bit HSL triples", "no panic (debug_assert channel range, unreachable sextant, overflow)", est=60)
+H(P, "c16", "c16_rgb8_roundtrip_rmax", ("bare",), "all 8-bit RGB with r the maximum", "RGB->HSL->RGB within 8/255 per channel", est=300, cap=900)
+H(P, "c16", "c16_rgb8_roundtrip_gmax", ("bare",), "all 8-bit RGB with g the strict maximum over r", "RGB->HSL->RGB within 8/255 per channel", est=300, cap=900)
+H(P, "c16", "c16_rgb8_roundtrip_bmax", ("bare",), "all 8-bit RGB with b the strict maximum", "RGB->HSL->RGB within 8/255 per channel", est=300, cap=900)
+H(P, "c16", "c16_grays_and_hue_wrap", ("bare",), "all gray levels, all hues; all (s,l) for hue 0 vs 255", "s==0, l kept, both directions; hue 255 within 8/255 of hue 0", est=60)
+H(P, "c16", "c16_alpha_variants", ("bare",), "channels on the lattice {0,51,...,255}^3, every alpha", "to_hsla/to_rgba keep alpha and equal the 3-channel conversion", est=30)
+H(P, "c16", "c16_packing", ("bare",), "all 2^32 RGBA words", "byte order of to_rgb_u32/to_rgba_u32/to_argb_u32; to_rgb/to_rgba keep channels, alpha 0xFF", est=5)
+H(P, "c16", "c16_float_to_u8_clamps", ("bare", "std"), "every 4 f32 bit patterns", "to_color3/4 == clamp then *255 truncated; NaN -> 0", est=120)
+H(P, "c16", "c16_u8_add_saturates", ("bare",), "every u8^3 x every i32^3 delta <= i32::MAX-255", "add saturates to [0,255]; sub exact", est=10)
